@@ -363,6 +363,10 @@ def exec_est_history(params):
             warnings.simplefilter("ignore")
             est.fit(X, y)
             for mv in params["moves"]:
+                if "_y" in mv:                       # data move: the same estimator object is refitted on another target
+                    y = np.array(params["ys"][mv["_y"]], dtype=float)
+                    est.fit(X, y)
+                    continue
                 mv2 = {k: (np.asarray(val, dtype=float) if k == "weights" else val) for k, val in mv.items()}
                 est.set_params(**mv2)
                 kw.update(mv)
@@ -406,17 +410,21 @@ def run_estimator(task, ctx):
     for xid, X in (("tall6x3", A.G_TALL), ("wide3x5", A.G_WIDE)):
         p = X.shape[1]
         y = R.targets("clf" if name in ("SparseLogisticRegression", "LinearSVC") else "reg", X, tier)[-1][1]
-        moves = est_moves(name, p)
+        moves = est_moves(name, p) + [dict(_y=1), dict(_y=0)]
+        if name in ("SparseLogisticRegression", "LinearSVC"):
+            ys = [y, -y]                              # the two labels swapped
+        else:
+            ys = [y, R.targets("reg", X, tier)[0][1] * 2.0 - 1.0]
         kw = base_kw(name, p)
         seen = set()
         for d in range(0, depth + 1):
             for seq in itertools.product(range(len(moves)), repeat=d):
-                params = dict(op="estimator", est=name, kw=kw, X=X.tolist(), y=y.tolist(), moves=[moves[i] for i in seq], xid=xid)
+                params = dict(op="estimator", est=name, kw=kw, X=X.tolist(), y=y.tolist(), ys=[t.tolist() for t in ys], moves=[moves[i] for i in seq], xid=xid)
                 v, w = exec_est_history(params)
                 ctx.transitions += 1
                 ctx.count("estimator_histories")
                 if w is not None:
-                    key = (np.asarray(w).tobytes(), str(sorted((k, str(val)) for k, val in {**kw, **{k: val for m in params["moves"] for k, val in m.items()}}.items())))
+                    key = (np.asarray(w).tobytes(), str(sorted((k, str(val)) for k, val in {**kw, **{k: val for m in params["moves"] for k, val in m.items()}}.items())))      # (_y = current target)
                     seen.add(key)
                 ctx.obs(w, nontrivial=w is not None and bool(np.any(w)))
                 for kind, got, exp in v:
